@@ -290,7 +290,7 @@ Fixpoint run_stmts (univ : list (string * pyobj)) (stmts : list dstmt) (s : dsta
           | inr (reg1, rfull, z, rp1) =>
               let s1 := {| ds_reg := reg1; ds_store := ds_store s; ds_imports := ds_imports s; ds_dynamic_seen := ds_dynamic_seen s |} in
               match get_configurable reg1 c sel with
-              | DErr e => (with_reg s1 (failed_reg reg1 c sel), refs, c, Some e)
+              | DErr e => (with_reg s1 (failed_reg reg1 c sel), retarget rp1 refs, c, Some e)   (* re-pointing happened when the value was parsed *)
               | DOk (reg2, full, rp2) =>
                   let k := (scope, full) in
                   let d := match st_get k (ds_store s1) with Some d => d | None => [] end in
